@@ -38,11 +38,6 @@ from vf.report import Ctx, Partial
 
 T_MIN = 0.5  # runner_considered_dead_after_minutes of every world (30 s)
 PPR, MTR, PR = "PersistentProcessRunner", "MultiThreadRunner", "ProcessRunner"
-MODULES = {
-    MTR: "pynenc.runner.multi_thread_runner",
-    PPR: "pynenc.runner.persistent_process_runner",
-    PR: "pynenc.runner.process_runner",
-}
 CHILD_CLS = {MTR: "ThreadRunner", PPR: "PPRWorker", PR: "ProcessRunnerWorker"}
 
 # a BFS level with at most this many fault sequences is continued sequence by sequence; a larger one is merged by state
@@ -107,7 +102,7 @@ class FakeProcess:
             raise AssertionError("cannot start a process twice")
         self.started = True
         self._alive = True
-        self.pid = 400000 + self.idx  # above any real pid of this machine's default pid_max range in use
+        self.pid = 400000 + self.idx  # a number only: never signalled (os.kill inside the runner modules is a recording stand-in)
 
     def is_alive(self) -> bool:
         return self._alive
@@ -414,10 +409,6 @@ def operations(cfg: dict, n_live: int, mixed: bool) -> list[str]:
 # ---------------------------------------------------------------------------
 # one world: real runner + real SQLite stack + stand-in processes
 # ---------------------------------------------------------------------------
-class Found(Exception):
-    pass
-
-
 class Drive:
     def __init__(self, cfg: dict) -> None:
         global _W
